@@ -286,7 +286,7 @@ class Case(object):
         """choose the instruction sequence and the start state (everything random happens here)"""
         isa, rng = self.isa, self.rng
         self.configure()
-        n = rng.randrange(1, self.nmax + 1)
+        n = len(self.want) if self.want else rng.randrange(1, self.nmax + 1)
         self.code, self.mnem = [], []
         for j in range(n):
             want = self.want[j] if j < len(self.want) else None
